@@ -101,7 +101,10 @@ pub(crate) fn run_scheduling_solver(
             let mut has_variant = false;
             for (v_idx, rq) in rqv.requests_with_ids() {
                 if rq.is_multi_node() {
+                    // The group is capable when enough of its workers have time to run the task;
+                    // this worker has to be one of them
                     if worker.is_free()
+                        && worker.has_time_to_run(rq.min_time(), now)
                         && worker_groups
                             .get(&worker.configuration.group)
                             .unwrap()
